@@ -221,13 +221,16 @@ def deleteMany (s : S) : List Nat → S × Nat
       (s', n + 1)
     else deleteMany s rest
 
+/-- the tenant / namespace check of `BatchDelete` by ids on one global id -/
+def visibleAt (s : S) (t : Tn) (ns : String) (g : Nat) : Bool :=
+  match alookup g s.docs with
+  | some d => visible t ns d.md
+  | none => false
+
 /-- `BatchDelete` by ids -/
 def batchDeleteIds (s : S) (t : Tn) (lids : List Nat) (ns : String) : S × Except Err Nat :=
   if lids.any fun l => (gid t l).isNone then (s, .error .invalidArgument) else
-  let gs := (lids.filterMap (gid t)).filter fun g =>
-    match alookup g s.docs with
-    | some d => visible t ns d.md
-    | none => false
+  let gs := (lids.filterMap (gid t)).filter (visibleAt s t ns)
   let (s', n) := deleteMany s gs
   (noteDeletes (decCount s' t n) t n, .ok n)
 
